@@ -1424,6 +1424,32 @@ func ruleC01SEL(w *World) []Ob {
 		var all []vcase
 		allInstrs(fn, func(in ssa.Instruction) {
 			if r, ok := in.(*ssa.Return); ok {
+				// `if n.parent == nil || len(n.parent.children) == 0 { return false }`: the return block is reached from
+				// two tests, neither of which dominates it — take each incoming edge with the condition that leads there
+				if b, isC := constBool(rr(r)[0]); isC && !b && len(r.Block().Preds) > 1 && len(r.Block().Instrs) == 1 {
+					split := true
+					var viaEdges []vcase
+					for _, pred := range r.Block().Preds {
+						if len(pred.Instrs) == 0 {
+							split = false
+							break
+						}
+						iff, isIf := pred.Instrs[len(pred.Instrs)-1].(*ssa.If)
+						if !isIf {
+							split = false
+							break
+						}
+						conds := ev.guardConds(pred)
+						a, pol := ev.atomPol(iff.Cond, pred.Succs[0] == r.Block())
+						if m, ok := mergeConds(conds, map[string]bool{a: pol}); ok {
+							viaEdges = append(viaEdges, vcase{m, "false"})
+						}
+					}
+					if split {
+						all = append(all, viaEdges...)
+						return
+					}
+				}
 				all = append(all, ev.argCases([]ssa.Value{rr(r)[0]}, ev.guardConds(r.Block()))...)
 			}
 		})
@@ -2524,6 +2550,28 @@ func truncatedRowGuard(p *Prog, fn *ssa.Function, scan, gen *ssa.Call) string {
 		switch {
 		case calleeFullName(c.Common()) == "bufio.NewScanner" && len(c.Common().Args) == 1 && inMemory(c.Common().Args[0]):
 		case memHelper(c.Common().StaticCallee()):
+		case func() bool {
+			// a pass-through configurator: limit(bufio.NewScanner(strings.NewReader(block)), n)
+			f := c.Common().StaticCallee()
+			if f == nil || !p.InModule(f) {
+				return false
+			}
+			for _, a := range c.Common().Args {
+				// a scanner constructor of the module handed an in-memory reader: newRowScanner(strings.NewReader(block), n)
+				if inMemory(a) {
+					return true
+				}
+				if ac, ok := stripConv(resolve(a)).(*ssa.Call); ok {
+					if calleeFullName(ac.Common()) == "bufio.NewScanner" && len(ac.Common().Args) == 1 && inMemory(ac.Common().Args[0]) {
+						return true
+					}
+					if g := ac.Common().StaticCallee(); g != nil && (memHelper(g) || ownSplit(g, 0)) {
+						return true
+					}
+				}
+			}
+			return false
+		}():
 		case c.Common().StaticCallee() != nil && ownSplit(c.Common().StaticCallee(), 0):
 		default:
 			allOK = false
